@@ -18,6 +18,7 @@ from vp import storemodel as SM
 P, A, L, N = "present", "absent", "stored_later", "none_valued"
 B, M = "bytearray_valued", "mutable_list"  # values whose stored form differs from the live object
 F, Z, E = "frame_valued", "ndarray_valued", "empty_frame_valued"  # values without a plain truth value / falsy containers
+U, G = "lock_valued", "generator_valued"  # values that cannot be copied or pickled (the memory store holds them as they are)
 ALPHABET = (
     [("has", k) for k in (P, A, L, N)]
     + [("fetch", k) for k in (P, A, L, N)]
@@ -25,6 +26,7 @@ ALPHABET = (
     + [("sync", None), ("fetch_paths", None), ("fetch_paths_absent", None)]
 )
 LIVE_OPS = [("store", B), ("fetch", B), ("has", B), ("store", M), ("fetch", M), ("has", M), ("fetch", P)]
+UNCOPYABLE_OPS = [("store", U), ("fetch", U), ("has", U), ("store", G), ("fetch", G), ("fetch", P)]
 ALIAS_OPS = [("store", M), ("fetch", M), ("mutate_fetched", M), ("fetch", P)]
 ARRAY_OPS = [("store", F), ("fetch", F), ("has", F), ("store", Z), ("fetch", Z), ("store", E), ("fetch", E), ("fetch", P)]
 # path operations that move one path between two keys and back (A, B, A ...)
@@ -38,6 +40,12 @@ def value_of(k):
         return bytearray(b"value-of-bytearray")
     if k == M:
         return [1, 2, "value-of-mutable"]
+    if k == U:
+        import threading
+
+        return threading.Lock()
+    if k == G:
+        return (i for i in range(3))
     if k == F:
         return SM.result_value("frame_labels")
     if k == E:
@@ -58,6 +66,8 @@ def _typed(ans):
             v = (v.to_json(orient="split"), [str(t) for t in v.dtypes], str(v.index.dtype))
         elif tn == "ndarray":
             v = (v.tolist(), str(v.dtype))
+        elif tn in ("lock", "generator"):
+            v = tn  # two distinct objects never compare equal: the type is the answer
         return ("ok", tn, v)
     return ans
 
@@ -87,6 +97,7 @@ def run_sequence(under, cap, seq, root, rep, check_bound):
     w = LRUCacheStore(s1, cap)
     refs = []
     out = []
+    stored_w, stored_b = {SM.key_for(P): None, SM.key_for(N): None}, {SM.key_for(P): None, SM.key_for(N): None}  # pre-stored keys: no identity claim
     ta = tb = v = v2 = None
     for step, (op, k) in enumerate(seq):
         key = SM.key_for(k) if k is not None else None
@@ -97,6 +108,9 @@ def run_sequence(under, cap, seq, root, rep, check_bound):
         elif op == "fetch":
             a, b = _answer(lambda: w.fetch_blob(key)), _answer(lambda: s2.fetch_blob(key))
             ta, tb = _typed(a), _typed(b)
+            # is the answer the very object that was stored (what the memory store does) or another one?
+            ta = ta + (("same-object-as-stored", a[0] == "ok" and stored_w.get(key) is not None and a[1] is stored_w[key]),)
+            tb = tb + (("same-object-as-stored", b[0] == "ok" and stored_b.get(key) is not None and b[1] is stored_b[key]),)
             if a[0] == "ok" and a[1] is not None:
                 try:
                     refs.append(weakref.ref(a[1]))
@@ -113,6 +127,8 @@ def run_sequence(under, cap, seq, root, rep, check_bound):
             v = value_of(k)
             v2 = value_of(k)
             a, b = _answer(lambda: w.store_blob(key, v, None)), _answer(lambda: s2.store_blob(key, v2, None))
+            # (a key stored twice gets two distinct harness objects, which no content-addressed use does: no identity claim then)
+            stored_w[key], stored_b[key] = (v, v2) if key not in stored_w else (None, None)
             if k == M:
                 # the producer goes on using (and changing) its object after it was stored
                 v.append("changed-after-store")
@@ -159,7 +175,7 @@ def run_sequence(under, cap, seq, root, rep, check_bound):
                         break
                 if not stored_before_fetch:
                     mech = "lru-caches-absent-fetch"
-            if ("mutate_fetched", k) in prior and op == "fetch" and a[0] == "ok" and "changed-by-the-caller-after-fetch" in repr(a[-1]) and "changed-by-the-caller-after-fetch" not in repr(b[-1]):
+            if ("mutate_fetched", k) in prior and op == "fetch" and a[0] == "ok" and "changed-by-the-caller-after-fetch" in repr(a) and "changed-by-the-caller-after-fetch" not in repr(b):
                 mech = "cached-object-aliased-to-caller"
             out.append(("%s cap=%s after %r: wrapped answered %r, bare store %r" % (under, cap, seq[: step + 1], a, b), mech))
             break
@@ -255,6 +271,7 @@ def run(tier, seed):
     for n in range(2, 4 if tier == "quick" else 5):
         liveseqs += [list(t) for t in itertools.product(LIVE_OPS, repeat=n)]
         liveseqs += [list(t) for t in itertools.product(ARRAY_OPS, repeat=n) if n <= 3]
+        liveseqs += [list(t) for t in itertools.product(UNCOPYABLE_OPS, repeat=n) if n <= 3]
         liveseqs += [list(t) for t in itertools.product(ALIAS_OPS, repeat=n) if n <= 3 and ("mutate_fetched", M) in t]
     pathseqs = []
     for n in range(2, 5 if tier == "quick" else 7):
@@ -272,6 +289,9 @@ def run(tier, seed):
                 allseq = allseq + pathseqs
             if under == "local" and (tier != "quick" or cap in (1, 3, CAPS[-1])):
                 allseq = allseq + liveseqs
+            if under == "memory":
+                # values that only the memory store can hold, and the identity of what it hands back
+                allseq = allseq + [list(t) for n in (2, 3) for t in itertools.product(UNCOPYABLE_OPS + [("store", M), ("fetch", M)], repeat=n)]
             chunk = 250
             for i in range(0, len(allseq), chunk):
                 jobs.append(("seq", (under, cap, allseq[i : i + chunk])))
